@@ -82,6 +82,10 @@ def e_ctor(c):
     shape = {0: (), 1: (n,), "1xN": (1, n), "2xN": (2, n)}[rank]
     a = np.asarray(_values(rs, shape, dt))
     b = np.asarray(_values(rs, shape, dt)) if c["noise"] else None
+    if c["form"] == "ndarray" and c["seed"] % 4 == 0 and not c["dtype"]:
+        nt_ = {"i": np.int32, "f": np.float32, "c": np.complex64}[dt]       # narrower widths are kept as given
+        a = a.astype(nt_)
+        b = None if b is None else b.astype(nt_)
     if c["form"] == "str" and dt == "i":
         # text made only of the digits 0/1 would be read digit by digit: make sure it is not
         a = np.where(np.isin(a, (0, 1, 10, 11)), a + 2, a)
@@ -217,6 +221,9 @@ def make_operand(d, cls, npol):
         return " ".join("%d" % v for v in vals), vals, None
     shape = (2, L) if d.get("two_rows") else (L,)
     a = np.asarray(_values(rs, shape, d["dt"]))
+    if k == "ndarray" and d["seed"] % 3 == 0:
+        # narrower widths (promotion / wrap-around happen in numpy exactly as in the model)
+        a = a.astype({"i": [np.int32, np.int16, np.uint8][d["seed"] % 9 // 3], "f": np.float32, "c": np.complex64}[d["dt"]])
     if k == "list":
         return a.tolist(), a, None
     if k == "tuple":
